@@ -36,6 +36,12 @@ func StartSignCommon(taproot bool, result *keygen.Config, signers []party.ID, me
 		if err != nil {
 			return nil, fmt.Errorf("sign.StartSign: %w", err)
 		}
+		// every signer must be a shareholder: the other signers need its verification share
+		for _, id := range helper.PartyIDs() {
+			if _, ok := result.VerificationShares.Points[id]; !ok {
+				return nil, fmt.Errorf("sign.StartSign: signer %s holds no share of the key", id)
+			}
+		}
 		return &round1{
 			Helper:  helper,
 			taproot: taproot,
